@@ -276,6 +276,8 @@ pub struct Decoded {
     pub kv: BTreeMap<Key, Vec<u8>>,
     pub n_leaves: usize,
     pub n_bbn: usize,
+    /// largest body of a live branch node: 6 bytes per entry + prefix and separator bits rounded up to a byte
+    pub max_bbn_body: usize,
     pub n_overflow_values: usize,
     pub n_overflow_pages: usize,
     pub ln_free: FreeListD,
@@ -379,6 +381,8 @@ pub fn decode_image(img: &DirImage) -> Result<Decoded, String> {
             }
         }
         d.n_bbn += 1;
+        let sep_bits = u16le(p, 10 + 2 * (b.keys.len() - 1)) as usize;
+        d.max_bbn_body = d.max_bbn_body.max(6 * b.keys.len() + (b.prefix_len + sep_bits + 7) / 8);
         d.bbn_live.insert(pn);
         for w in b.keys.windows(2) {
             if w[0] >= w[1] {
